@@ -33,7 +33,9 @@ import (
 	"os"
 	"os/exec"
 	"runtime"
+	"sort"
 	"strconv"
+	"strings"
 	"sync"
 	"time"
 
@@ -77,7 +79,7 @@ type signal struct {
 	set     exporterhelper.QueueBatchSettings
 	sig     pipeline.Signal
 	build   func(base int, tag string, sh shape, big map[int]bool) ([]byte, []item)
-	project func(b []byte) ([]item, error)
+	project func(b []byte) ([]item, []int, error)
 }
 
 func signals() map[string]*signal {
@@ -90,55 +92,87 @@ func signals() map[string]*signal {
 			build: func(base int, tag string, sh shape, big map[int]bool) ([]byte, []item) {
 				ld := buildLogs(base, tag, sh, big)
 				b, _ := lm.MarshalLogs(ld)
-				return b, projectLogs(ld)
+				return b, projectLogs(ld, nil)
 			},
-			project: func(b []byte) ([]item, error) {
+			project: func(b []byte) ([]item, []int, error) {
 				ld, err := lu.UnmarshalLogs(b)
 				if err != nil {
-					return nil, err
+					return nil, nil, err
 				}
-				return projectLogs(ld), nil
+				var tags []string
+				items := projectLogs(ld, &tags)
+				return items, reqNumbers(tags), nil
 			}},
 		"traces": {set: exporterhelper.NewTracesQueueBatchSettings(), sig: pipeline.SignalTraces,
 			build: func(base int, tag string, sh shape, big map[int]bool) ([]byte, []item) {
 				td := buildTraces(base, tag, sh, big)
 				b, _ := tm.MarshalTraces(td)
-				return b, projectTraces(td)
+				return b, projectTraces(td, nil)
 			},
-			project: func(b []byte) ([]item, error) {
+			project: func(b []byte) ([]item, []int, error) {
 				td, err := tu.UnmarshalTraces(b)
 				if err != nil {
-					return nil, err
+					return nil, nil, err
 				}
-				return projectTraces(td), nil
+				var tags []string
+				items := projectTraces(td, &tags)
+				return items, reqNumbers(tags), nil
 			}},
 		"metrics": {set: exporterhelper.NewMetricsQueueBatchSettings(), sig: pipeline.SignalMetrics,
 			build: func(base int, tag string, sh shape, big map[int]bool) ([]byte, []item) {
 				md := buildMetrics(base, tag, sh, big)
 				b, _ := mm.MarshalMetrics(md)
-				return b, projectMetrics(md)
+				return b, projectMetrics(md, nil)
 			},
-			project: func(b []byte) ([]item, error) {
+			project: func(b []byte) ([]item, []int, error) {
 				md, err := mu.UnmarshalMetrics(b)
 				if err != nil {
-					return nil, err
+					return nil, nil, err
 				}
-				return projectMetrics(md), nil
+				var tags []string
+				items := projectMetrics(md, &tags)
+				return items, reqNumbers(tags), nil
 			}},
 		"profiles": {set: xexporterhelper.NewProfilesQueueBatchSettings(), sig: xpipeline.SignalProfiles,
 			build: func(base int, tag string, sh shape, big map[int]bool) ([]byte, []item) {
 				pd := buildProfiles(base, tag, sh, big)
 				b, _ := pm.MarshalProfiles(pd)
-				return b, projectProfiles(pd)
+				return b, projectProfiles(pd, nil)
 			},
-			project: func(b []byte) ([]item, error) {
+			project: func(b []byte) ([]item, []int, error) {
 				pd, err := pu.UnmarshalProfiles(b)
 				if err != nil {
-					return nil, err
+					return nil, nil, err
 				}
-				return projectProfiles(pd), nil
+				var tags []string
+				items := projectProfiles(pd, &tags)
+				return items, reqNumbers(tags), nil
 			}},
 	}
+}
+
+// request numbers (k of tag s<sid>.r<k>.<ri>) whose containers are present, sorted, without duplicates
+func reqNumbers(tags []string) []int {
+	seen := map[int]bool{}
+	out := []int{}
+	for _, tg := range tags {
+		k := -1
+		if i := strings.Index(tg, ".r"); i >= 0 {
+			rest := tg[i+2:]
+			if j := strings.Index(rest, "."); j >= 0 {
+				rest = rest[:j]
+			}
+			if v, err := strconv.Atoi(rest); err == nil {
+				k = v
+			}
+		}
+		if !seen[k] {
+			seen[k] = true
+			out = append(out, k)
+		}
+	}
+	sort.Ints(out)
+	return out
 }
 
 func sizerType(s string) exporterhelper.RequestSizerType {
@@ -184,19 +218,19 @@ func nonNil(it []item) []item {
 }
 
 // measured independently of the request's cached size: items as found, bytes of its encoding
-func measure(sg *signal, s *script, req exporterhelper.Request) ([]item, int, error) {
+func measure(sg *signal, s *script, req exporterhelper.Request) ([]item, []int, int, error) {
 	b, err := sg.set.Encoding.Marshal(req)
 	if err != nil {
-		return nil, 0, err
+		return nil, nil, 0, err
 	}
-	items, err := sg.project(b)
+	items, reqs, err := sg.project(b)
 	if err != nil {
-		return nil, 0, err
+		return nil, nil, 0, err
 	}
 	if s.Sizer == "bytes" {
-		return nonNil(items), len(b), nil
+		return nonNil(items), reqs, len(b), nil
 	}
-	return nonNil(items), len(items), nil
+	return nonNil(items), reqs, len(items), nil
 }
 
 func makeReq(sg *signal, s *script, k int) (exporterhelper.Request, []item, error) {
@@ -233,13 +267,13 @@ func runSplit(s *script, sg *signal, rec *recorder, res *result) {
 	}
 	var got [][]int
 	emit := func(r exporterhelper.Request) bool {
-		items, size, err := measure(sg, s, r)
+		items, reqs, size, err := measure(sg, s, r)
 		if err != nil {
 			res.Error = "cannot project a returned part: " + err.Error()
 			return false
 		}
 		rec.calls++
-		rec.log(map[string]any{"ev": "emit", "k": rec.calls, "items": items, "size": size}, nil)
+		rec.log(map[string]any{"ev": "emit", "k": rec.calls, "items": items, "reqs": reqs, "size": size}, nil)
 		rec.log(map[string]any{"ev": "emit_end", "k": rec.calls, "ok": true}, nil)
 		ids := []int{}
 		for _, it := range items {
@@ -296,13 +330,13 @@ func runBatch(s *script, sg *signal, rec *recorder, res *result) {
 		fail[k] = true
 	}
 	export := func(_ context.Context, req request.Request) error {
-		items, size, err := measure(sg, s, req)
+		items, reqs, size, err := measure(sg, s, req)
 		if err != nil {
-			items, size = []item{}, -1
+			items, reqs, size = []item{}, []int{}, -1
 		}
 		var k int
 		var ferr error
-		ev := map[string]any{"ev": "emit", "items": items, "size": size}
+		ev := map[string]any{"ev": "emit", "items": items, "reqs": reqs, "size": size}
 		rec.log(ev, func() {
 			rec.calls++
 			k = rec.calls
